@@ -218,8 +218,12 @@ func (e *Engine) isMatchBoundedBacktracker(haystack []byte) bool {
 		if !e.asciiBoundedBacktracker.CanHandle(len(haystack)) {
 			return e.pikevmIsMatch(haystack)
 		}
-		// Use ASCII backtracker directly (no pooled state needed - it's independent)
-		return e.asciiBoundedBacktracker.IsMatch(haystack)
+		// Use ASCII backtracker with pooled state: its internal state is shared by all
+		// goroutines (the visited table belongs to one search at a time)
+		state := e.getSearchState()
+		matched := e.asciiBoundedBacktracker.IsMatchWithState(haystack, state.backtracker)
+		e.putSearchState(state)
+		return matched
 	}
 
 	if !e.boundedBacktracker.CanHandle(len(haystack)) {
